@@ -5,7 +5,7 @@ import scen_common, prop_mu_family
 PID = "C13"
 PROP_V = ["Props/Properties_C13.v", "Props/Properties_C13b.v", "Props/Properties_C13r.v", "Props/Properties_C05sw.v"]
 GEN_MODULES = ["Consts", "Sites"]
-FLOW_FILES = ['mu.c', 'sem_wait.c', 'note.c']
+FLOW_FILES = ['mu.c', 'sem_wait.c', 'note.c', 'mu_wait.c', 'cv.c', 'wait.c', 'counter.c']
 REPLAY_HINT = "VRT_SEED=<seed> [env] _work/h/<scenario>: the arena unmaps freed blocks (UAF) and the runtime knows every thread's parked stack pointer (DEADSTACK)"
 PARTIAL = ["Properties_C13b proves by computation over the regenerated Gen/Flow.v + Gen/Sites.v that after nsync_mu_unlock_slow_'s last word CAS (site 5, retry load 6) "
            "only the `waiting` store (site 7), nsync_mu_semaphore_v and EXIT are reachable and that this tail is closed; that after the early-release CAS (site 3) the "
